@@ -40,6 +40,8 @@ def input_value(inp) -> np.ndarray:
         return np.linspace(inp["start"], inp["stop"], inp["num"], endpoint=inp["endpoint"], dtype=inp["dtype"])
     if k == "eye":
         return np.eye(inp["n"], inp["m"], k=inp["kdiag"], dtype=inp["dtype"])
+    if k == "random":
+        return np.full(tuple(inp["shape"]), 0.5, dtype="float64")  # placeholder: values have no NumPy oracle
     raise ValueError(k)
 
 
@@ -77,6 +79,10 @@ def build_input(inp, spec, ctx):
         return xp.linspace(inp["start"], inp["stop"], inp["num"], endpoint=inp["endpoint"], dtype=dt, chunks=chunks, spec=spec)
     if k == "eye":
         return xp.eye(inp["n"], inp["m"], k=inp["kdiag"], dtype=dt, chunks=chunks, spec=spec)
+    if k == "random":
+        import cubed.random
+
+        return cubed.random.random(tuple(inp["shape"]), chunks=chunks, spec=spec)
     raise ValueError(k)
 
 
@@ -228,7 +234,7 @@ def derive_meta(op: ir.Op, name, argvals, params, v) -> Val:
 def eval_numpy(prog) -> list[Val]:
     vals = []
     for inp in prog["inputs"]:
-        vals.append(Val(input_value(inp)))
+        vals.append(Val(input_value(inp), exact=inp["kind"] != "random", comparable=inp["kind"] != "random"))
     for node in prog["nodes"]:
         op = OPS[node["op"]]
         args = [vals[i] for i in node["args"]]
@@ -439,6 +445,8 @@ def draw_input(draw, st, k, prev_inputs, opts):
                 inp["special"] = True
             elif c <= 2:
                 inp["frac"] = True
+    elif kd == "random":
+        inp["dtype"] = "float64"
     elif kd == "full":
         inp["value"] = {"b": True, "i": -3, "u": 7, "f": 2.5, "c": 1.5}[kind(dtype)]
     elif kd == "arange":
@@ -542,7 +550,7 @@ def programs(profile="dag", max_ops=6, min_ops=0, n_inputs=(1, 3), opts=None, ou
         inputs = []
         for k in range(nin):
             inputs.append(draw_input(draw, st, k, inputs, opts))
-        vals = [Val(input_value(i)) for i in inputs]
+        vals = [Val(input_value(i), exact=i["kind"] != "random", comparable=i["kind"] != "random") for i in inputs]
         nodes = []
         nops = draw(st.integers(min_ops, max_ops))
         for _ in range(nops):
